@@ -151,9 +151,13 @@ def coloured_obstacles(ctx):
         cg = tuple(tuple(r.choice([gen.FLOOR, gen.FLOOR, (OBST_T, 0, 0, None), gen.WALL] if (y, x) != (0, 0) else [gen.FLOOR]) for x in range(w)) for y in range(h))
         user = r.random() < 0.5
         s = wire.mkstate((cg, (0, 0), r.randrange(4), gen.NONE), sub=OBST_T if user else None)
-        for pos in s.grid.area.positions():
-            if wire.cobj(s.grid[pos])[0] == OBST_T:
-                s.grid[pos].color = r.choice(list(Color))
+        try:
+            for pos in s.grid.area.positions():
+                if wire.cobj(s.grid[pos])[0] == OBST_T:
+                    s.grid[pos].color = r.choice(list(Color))
+        except (AttributeError, TypeError):
+            ctx.count('coloured obstacles', 'colour of an obstacle instance cannot be set: probe skipped')
+            continue
         if not user and r.random() < 0.5:
             s = fast_copy(s)         # (the harness' run-time subclasses cannot be pickled)
         before = wire.cstate(s)
